@@ -60,7 +60,7 @@ var Builtins = map[string]bool{"Fst": true, "Snd": true, "InjL": true, "InjR": t
 	"loc_add": true, "is_null": true, "ty.size": true, "ty.isprod": true, "ty.isunit": true, "ty.fst": true, "ty.snd": true, "zero_val": true,
 	"slice.T": true, "mapT": true, "arrayT": true, "prodT": true, "str.len": true, "str.get": true, "str.ofbyte": true, "uint64_to_string": true,
 	"AllocN": true, "StartRead": true, "FinishRead": true, "PrepareWrite": true, "FinishStore": true, "Load": true, "CmpXchg": true,
-	"ArbitraryInt": true, "Panic": true}
+	"ArbitraryInt": true, "Panic": true, "DiskRead": true, "DiskWrite": true, "DiskSize": true}
 
 var baseTypes = map[string]string{"uint64T": "u64", "uint32T": "u32", "byteT": "u8", "boolT": "bool", "stringT": "str", "unitT": "unit",
 	"ptrT": "ptr", "anyT": "any", "ProphIdT": "ptr", "fileT": "u64", "disk.blockT": "slice_u8", "disk.Disk": "ptr", "refT": "ptr"}
